@@ -306,6 +306,8 @@ class Verifier(ExprMixin, StmtMixin, CallMixin, LibMixin, FoldMixin, Executor):
                 v = st.vars.get(self.param_obj(func, nm))
                 if isinstance(v, SliceV) and v.rid is not None:
                     fs["regions"].append((v.rid, None))
+                elif isinstance(v, PtrV):
+                    fs["fields"].append((v.oid, v.elem.name(), None))
             elif m["kind"] == "field":
                 via = m.get("via")
                 names = self.param_names(func)
